@@ -551,6 +551,70 @@ pub fn exec_special(ctx: &mut Ctx, ex: &mut Extra, hist: &mut Vec<String>, toks:
             }
             s
         }
+        "play" => {
+            // play <depth> <w|b> <in1>|<in2>|... : the real `chess play` loop (game::human_vs_computer) in a child
+            // process; the human's lines on its stdin, the engine answering by itself.  The loop never ends on
+            // end-of-input, so the child is killed once its output exceeds a cap.  Parsed: the notation of every
+            // move made (human and engine), and the verdict if the game ended.
+            use std::io::{Read, Write};
+            use std::process::{Command, Stdio};
+            let depth = toks[1];
+            let color = toks[2];
+            let script = if toks.len() > 3 { toks[3] } else { "" };
+            let mut child = Command::new(std::env::current_exe().unwrap())
+                .arg("playchild")
+                .arg(format!("depth={}", depth))
+                .arg(format!("color={}", color))
+                .stdin(Stdio::piped())
+                .stdout(Stdio::piped())
+                .stderr(Stdio::null())
+                .spawn()
+                .expect("spawn play child");
+            {
+                let mut si = child.stdin.take().unwrap();
+                for l in script.split('|') {
+                    let _ = writeln!(si, "{}", l);
+                }
+            }
+            let mut so = child.stdout.take().unwrap();
+            let mut out: Vec<u8> = vec![];
+            let mut buf = [0u8; 65536];
+            let mut runaway = false;
+            loop {
+                match so.read(&mut buf) {
+                    Ok(0) | Err(_) => break,
+                    Ok(n) => {
+                        out.extend_from_slice(&buf[..n]);
+                        if out.len() > (1 << 19) {
+                            runaway = true;
+                            let _ = child.kill();
+                            break;
+                        }
+                    }
+                }
+            }
+            let status = child.wait().ok();
+            let text = String::from_utf8_lossy(&out).to_string();
+            let mut moves: Vec<String> = vec![];
+            let mut end = if runaway { "runaway".to_string() } else { "eof".to_string() };
+            for l in text.lines() {
+                if let Some(pos) = l.find("Last move: ") {
+                    moves.push(l[pos + 11..].trim().to_string());
+                } else if l.ends_with("checkmate!") || l.ends_with("stalemate!") {
+                    end = if l.ends_with("checkmate!") { "checkmate".to_string() } else { "stalemate".to_string() };
+                }
+            }
+            if let Some(st) = status {
+                if !st.success() && !runaway {
+                    end = "crashed".to_string();
+                }
+            }
+            if moves.is_empty() && !text.contains("Last move") && end != "crashed" {
+                "play unparsed".to_string()
+            } else {
+                format!("play {} {}", end, moves.join(" "))
+            }
+        }
         "pvp" => {
             // pvp <in1>|<in2>|... : the real `chess pvp` loop (game::player_vs_player) in a child process, the
             // inputs on its stdin; its stdout (the board printed before every prompt, the final verdict) parsed.
